@@ -13,6 +13,13 @@ mutually adjoint, and `reduce ∘ expand = id` for unit root-sum-of-squares maps
 All statements are about the definitions of `Model/Complex.lean` (the ones the driver executes over
 `Rat`), instantiated at `ℝ` and read in `ℂ` through `toC ⟨re, im⟩ = re + im·i`.
 
+Layers: scalar helpers → fibre (list) level → matrices (abstract four-product formula **and** the row-list
+`rmm` / `cmm` the driver runs) → coil operators for arbitrary finite index types (`expand`, `reduce`, `adjoint`,
+`reduce_expand_id`) → **the flat row-major tensor operators themselves** (`expandOp_refines`, `reduceOp_refines`,
+`adjoint_tensor`, `reduce_expand_id_tensor`, `expandOp_linear`, `reduceOp_linear`, `rssSqReal_eq_rssSqT_real`; index
+arithmetic in `Lemmas/C02Tensor.lean`, sum re-indexing in `Lemmas/C02Sums.lean`) → what a well-formed row of the
+translated call-site table means (`wf_site_axis`, `wf_inlineReduce_denotes`, `wf_inlineExpand_denotes`).
+
 **Float-range note (`C02_float_range_note`).**  Every theorem below is over `ℝ` / `ℂ`, where the squares
 `b₀² + b₁²`, `a₀² + a₁²` and the products `aᵢ bⱼ` always exist.  In float32 the *same formulas* leave
 the representable range although operands and exact result are ordinary float32 numbers; on the
@@ -416,6 +423,19 @@ theorem adjoint_tensor (x y S : Tensor (Cpx ℝ)) (hx : x.shape = pre ++ post) (
     cdot_pix _ _ (prod pre) (prod post) (by rw [wx, hx, prod_append]) hR,
     expandOp_refines x S hx hS hd, reduceOp_refines y S hy hS wy wS hd]
   exact adjoint _ _ _
+
+/-- the `rss` op of the driver on the real layout `(…, 2)` is `rssSqT` of the complex view (over `ℝ`), so
+`rssSqT_refines` / `reduce_expand_id_tensor` speak about `root_sum_of_squares` as it is executed -/
+theorem rssSqReal_eq_rssSqT_real (t : Tensor ℝ) (z : Tensor (Cpx ℝ)) (h : viewAsComplex t = some z)
+    (w : t.data.length = prod t.shape) (dim : ℤ) : rssSqReal t dim (-1) = rssSqT z dim :=
+  C02T.rssSqReal_eq_rssSqT t z h w add_zero dim
+
+/-- … and `modulus(data)²` on the real layout is `|z|²` entrywise -/
+theorem modSqAxis_last_real (t : Tensor ℝ) (z : Tensor (Cpx ℝ)) (h : viewAsComplex t = some z)
+    (w : t.data.length = prod t.shape) : modSqAxis t (-1) = ⟨z.shape, z.data.map fun a => Complex.normSq (toC a)⟩ := by
+  rw [C02T.modSqAxis_last t z h w add_zero]
+  have : (modSq : Cpx ℝ → ℝ) = fun a => Complex.normSq (toC a) := funext modulus_sq_eq_normSq
+  simp only [modSqT, mapT, this]
 
 /-! ### a well-formed tensor is determined by its view -/
 
